@@ -7,8 +7,8 @@ CLAIMS = {
  "C01": ("Contracts on ResolveExecutable, resolve, resolveFieldSels, resolveSels, resolveField, resolveList, resolveInline, resolveFragRef are discharged for all inputs: operation choice (unknown or ambiguous name runs no resolver), one response key per field (alias or name) and nothing else written to the result map, __typename, list results as long as the source list, null/depth cut-off.",
          "user resolvers are assumed deterministic and not to write ggql-owned memory; parser-established data-structure invariants and pure accessors are listed in evidence.assumptions; whole-response equality with a reference semantics (Exec) is not proved",
          "4 C01"),
- "C03": ("Panic-freedom obligations (nil dereference, index, slice bounds, type assertion, nil-map store, division, uncomparable interface comparison) and loop termination measures are discharged for every function currently under contract (resolve walk, coercions, error helpers).",
-         "scanners (parser.go, sdlparser.go, exeparser.go), printers and reflect-dominated helpers are not yet under contract: the claim covers the listed functions only; reflect preconditions are a separate unclaimed class",
+ "C03": ("For 262 functions of the package (every scanner of parser.go / sdlparser.go / exeparser.go, the resolve walk, coercions, validators, registry, helpers): panic-freedom obligations (nil dereference, index and slice bounds, failed type assertion, nil-map store, division, comparison of uncomparable dynamic values) discharged on all paths for every byte sequence the reader can deliver; termination: every scanner loop carries a measure over a ghost model of the reader (bytes still to be delivered, lookahead byte, end-of-input mark) and is proved to consume input or stop, including the top-level definition loops of parseSDL and parseExe; recursion of the scanners (nested values, types, selection sets) and of the resolve walk (depth, function rank, structural height) is proved to descend a lexicographic measure; range loops by their index.",
+         "reader model: finite input (#N bytes), a Read never answers (0, nil); stack use is proportional to nesting depth of the input (a measure, not a constant bound: 20M nested '[' still exhaust the stack); reflect preconditions (reflect.Value.Call argument matching) are a separate unclaimed class; 89 functions still lack shape preconditions for the sweep (contracts/SWEEP_TODO.txt); parser-established shape invariants are listed in evidence.assumptions",
          "4 C03"),
  "C04": ("Every built-in scalar CoerceIn is proved, for every dynamic Go type of the input, to return either an error or a value of the declared Go representation that denotes the same number/string/boolean (exact integer arithmetic, IEEE-754 floats).",
          "custom scalars are assumed to meet the InCoercer contract; strconv/time parsing results are unconstrained apart from bit-size; list/input-object/variable plumbing not yet under contract",
